@@ -23,6 +23,7 @@
 //! moderate cardinalities.
 
 use crate::common::NumStdDev;
+use crate::error::Error;
 use crate::hll::composite_interpolation;
 use crate::hll::cubic_interpolation;
 use crate::hll::harmonic_numbers;
@@ -325,6 +326,21 @@ impl HipEstimator {
 }
 
 /// Compute 1 / 2^value (inverse power of 2)
+/// Validates an estimator field (hip_accum, kxq0, kxq1) read from an image.
+///
+/// These are sums of non-negative terms. A NaN, an infinity or a negative value can only come
+/// from a corrupt image and would later make the composite estimator interpolate outside its
+/// table (a debug assertion in cubic_interpolation).
+pub(super) fn check_image_field(name: &str, value: f64) -> Result<(), Error> {
+    if value.is_finite() && value >= 0.0 {
+        Ok(())
+    } else {
+        Err(Error::deserial(format!(
+            "{name} must be finite and non-negative, got {value}"
+        )))
+    }
+}
+
 #[inline]
 fn inv_pow2(value: u8) -> f64 {
     if value == 0 {
